@@ -464,6 +464,8 @@ def run(ctx):
         n += sequencer_specific(ctx)
         n += exotic_int_cases(ctx)
         n += subclass_cases(ctx)
+    if sh == 2 % N:
+        n += vlq_helper_cases(ctx)
         n += other_charsets(ctx)
         n += unknown_meta(ctx, rng)
         n += malformed_from_bytes(ctx)
@@ -500,6 +502,30 @@ def run(ctx):
     ctx.put_sample({'type': 'smpte_offset', 'frame_rate': 29.97, 'hours': sh, 'minutes': 59, 'seconds': 0,
                     'frames': 255, 'sub_frames': 99})
     ctx.put_sample({'type': 'text', 'len': 128, 'style': 'high'})
+
+
+def vlq_helper_cases(ctx):
+    """encode_variable_int / decode_variable_int are inverse on 0 .. 2**28-1 (all 1- and 2-byte values, every
+    boundary and a sample of the 3- and 4-byte ones) and agree with the reference; from_bytes copes with
+    payload lengths that need three length bytes."""
+    from mido.midifiles.meta import decode_variable_int, encode_variable_int
+    n = 0
+    values = list(range(0, 16384 + 3)) + [2 ** k + d for k in range(14, 28) for d in (-1, 0, 1)] + \
+        [32768, 40000, 49151, 49152, 65535, 65536, 81919, 81920, 100000, 1000000, 2 ** 21 - 1, 2 ** 21, 2 ** 28 - 1] + \
+        [(i * 2654435761) % (2 ** 28) for i in range(1, 400)]
+    bad = None
+    for v in values:
+        enc = encode_variable_int(v)
+        if list(enc) != list(rmeta.vlq(v)) or decode_variable_int(list(enc)) != v:
+            bad = {'value': v, 'encoded': list(enc), 'reference': list(rmeta.vlq(v)), 'decoded_back': decode_variable_int(list(enc))}
+            break
+        n += 1
+    ctx.check('bytes == FF type VLQ(len) payload (reference)', bad is None, 'variable-length-helpers', {'kind': 'vlq-helpers'}, bad)
+    for ln in (16385, 32768, 40000, 49152, 65536, 81920, 100000):
+        for t, attr, val in (('text', 'text', 'x' * ln), ('sequencer_specific', 'data', tuple(i % 256 for i in range(ln)))):
+            judge_message(ctx, t, {attr: val}, via_reader=(ln in (32768, 65536)), delta=1)
+            n += 1
+    return n
 
 
 def exotic_int_cases(ctx):
@@ -618,6 +644,9 @@ def replay(ctx, case):
     k = case['kind']
     if k == 'exotic-ints':
         exotic_int_cases(ctx)
+        return
+    if k == 'vlq-helpers':
+        vlq_helper_cases(ctx)
         return
     if k == 'subclass':
         subclass_cases(ctx)
